@@ -35,6 +35,10 @@ class MyScalar:
     def __repr__(self):
         return f"MyScalar({self.raw!r})"
 
+    def __bool__(self):
+        # a valid, non-null value may be falsy (like 0, "" or timedelta(0)): the second value of every menu is
+        return bool(self.raw)
+
 
 def parse_sc(value):
     CALLS.append(("parse", repr(value)))
@@ -265,7 +269,7 @@ def evaluate(case):
         else:
             sm = sys.modules["abs_scalars_mod"] if style == "absolute" else mods["scalars_mod"]
             CALLS, My = sm.CALLS, sm.MyScalar
-            raw_of = lambda i, sc="Sc": f"raw{i}" if sc == "Sc" else f"two{i}"
+            raw_of = lambda i, sc="Sc": "" if i == 1 else (f"raw{i}" if sc == "Sc" else f"two{i}")
             py_of = lambda raw: My(raw)
             if cfg == "parse_is_type":
                 def py_of(raw, Money=sm.Money):
